@@ -14,7 +14,9 @@ clock by clock with counter-level reference models (cv/ref/c16_models.py):
   debounce std.debounce, period 1..8 (and Duration), initial, input sequences
 
 All n / period cells are enumerated (enum shards; input / enable sequences of <= L clocks are enumerated
-completely inside the case), longer sequences and two-wait combinations are drawn by Hypothesis.
+completely inside the case), longer sequences and two-wait combinations are drawn by Hypothesis.  Run-time
+periods / limits are also changed mid-run (`vary` cases: every step change a -> b at every phase, and drawn
+sequences of period values).
 """
 from __future__ import annotations
 
@@ -38,14 +40,23 @@ RULE = (
     "case = (family, configuration cell, input/enable/start sequence | 'all binary sequences of length L'); "
     "non-trivial = wait: a completed wait with n >= 2 or a run-time n; delay: n >= 1 and more clocks than n+1; "
     "counter: the counter wrapped; clkdiv/toggle: period >= 2 or run-time period and (with enable control) an "
-    "enable/disable edge inside a period; debounce: the output changed; distinct = case hash"
+    "enable/disable edge inside a period, or a run-time period lowered while the counter is inside the period; "
+    "debounce: the output changed; distinct = case hash"
 )
 ASSUMPTIONS = [
     "VHDL semantics as implemented by cv.vhdl (calibrated on the upstream cocotb benches)",
     "wait_for: 'reached' is the clock in which the statement before the wait executes (a pulse output assigned right "
     "before the await); 'resumes n steps later' = the statement after the await executes n clocks later (this is how "
     "upstream test_wait_for.py measures it); when a coroutine reaches the wait is not predicted (property C01)",
-    "run-time n / periods are held constant during one run",
+    "run-time n of wait_for is held constant during one run; run-time periods/limits of continuous_counter, "
+    "ClockDivider and ToggleSignal are additionally CHANGED during the run (all step changes a -> b at every counter "
+    "phase, plus drawn sequences of period values).  Documented behaviour for a changed period: ToggleSignal = "
+    "upstream ToggleMock of test_toggle_signal_02.py (that bench changes both intervals at random times: the period "
+    "counter wraps as soon as it is at or above the current end value), compared per tick after a reset has been "
+    "seen; for the raw continuous_counter and for ClockDivider a lowered limit/period is documented nowhere, so only "
+    "what is determined is asserted: exact successor while the counter is within the limit / exact pulse spacing "
+    "once a pulse has occurred, and resumption within one new period (counter <= limit after limit+1 ticks, a pulse "
+    "within the first D ticks of an unchanged period D)",
     "Duration arguments: expected tick count = duration / clock period when that is an integer; when it is not, a "
     "rejection is expected and an accepted design is `unspecified` (wait_for documents no tolerance)",
     "delayed/DelayLine: semantics of the DelayLine docstring and its example table (element 0 is the input, every "
